@@ -19,6 +19,7 @@ import (
 
 const rtImport = "github.com/MichaelMure/git-bug/zzverif/verifrt"
 const glImport = "github.com/MichaelMure/git-bug/zzverif/gitlabhook"
+const fsImport = "github.com/MichaelMure/git-bug/zzverif/verifrtfs"
 
 // directories of /repo whose non-test files are instrumented
 var roots = []string{"api", "bridge", "cache", "commands", "entities", "entity", "query", "repository", "util", "termui"}
@@ -197,6 +198,8 @@ func processDir(repo, rel string, files []string, out string, replace map[string
 		osName := importName(p.f, "os", "os")
 		procName := importName(p.f, "github.com/MichaelMure/git-bug/util/process", "process")
 		glName := importName(p.f, "github.com/xanzy/go-gitlab", "gitlab")
+		osfsName := importName(p.f, "github.com/go-git/go-billy/v5/osfs", "osfs")
+		needFs := false
 		usedTime, usedOs, usedProc, usedGl := false, false, false, false
 		needGl := false
 
@@ -309,6 +312,11 @@ func processDir(repo, rel string, files []string, out string, replace map[string
 					se := t.Fun.(*ast.SelectorExpr)
 					add(off(se.Pos()), off(se.End())-off(se.Pos()), "verifrt.IsRunning")
 					counts["R-pid"]++
+				} else if isPkgSel(t.Fun, osfsName, "New") && rel == "repository" {
+					se := t.Fun.(*ast.SelectorExpr)
+					add(off(se.Pos()), off(se.End())-off(se.Pos()), "verifrtfs.New")
+					counts["R-fs"]++
+					needFs = true
 				} else if isPkgSel(t.Fun, glName, "NewClient") && strings.HasPrefix(rel, "bridge/gitlab") {
 					se := t.Fun.(*ast.SelectorExpr)
 					add(off(se.Pos()), off(se.End())-off(se.Pos()), "gitlabhook.NewClient")
@@ -344,6 +352,9 @@ func processDir(repo, rel string, files []string, out string, replace map[string
 		if needGl {
 			imp += "; import gitlabhook " + strconv.Quote(glImport)
 		}
+		if needFs {
+			imp += "; import verifrtfs " + strconv.Quote(fsImport)
+		}
 		add(off(p.f.Name.End()), 0, imp)
 
 		sort.SliceStable(edits, func(i, j int) bool {
@@ -376,6 +387,9 @@ func processDir(repo, rel string, files []string, out string, replace map[string
 		}
 		if glName != "" && needGl {
 			b.WriteString("var _ = " + glName + ".NewClient\n")
+		}
+		if needFs {
+			b.WriteString("var _ = " + osfsName + ".New\n")
 		}
 		b.WriteString("var _ = verifrt.Now\n")
 
